@@ -29,6 +29,7 @@ from oslo_utils import encodeutils
 
 UNIT_PREFIX_EXPONENT = {
     'k': 1,
+    'ki': 1,
     'K': 1,
     'Ki': 1,
     'M': 2,
